@@ -13,7 +13,7 @@ ID = "C15"
 AREA = "c15"
 LEAN_PROPS = "Litep2pVerif.Props.C15"
 THEOREMS = ["no_self", "no_requery", "terminates", "parallelism_zero_stuck", "parallelism_bound",
-            "success_sorted_bounded", "success_answered", "success_closer_contacted",
+            "success_sorted_bounded", "success_answered", "learned_tracked", "success_closer_contacted",
             "success_closer_contacted_needs_injectivity", "terminal_once",
             "engine_no_self", "engine_no_requery", "engine_parallelism_bound",
             "default_parallelism_pos", "lookup_parallelism_bound",
@@ -36,7 +36,8 @@ MANIFEST = {
             "strength after the fix: commit; lookup_parallelism_bound). Per query id at engine level, over every "
             "interleaving of the events of concurrent queries, restarts under the same id and events for unknown ids: "
             "terminal_once, engine_no_self, engine_no_requery, engine_parallelism_bound. Success: success_sorted_bounded, "
-            "success_answered, success_closer_contacted (full statement: every peer ever learned of - initial candidates "
+            "success_answered, learned_tracked (everything learned is in candidates, pending or queried), "
+            "success_closer_contacted (full statement: every peer ever learned of - initial candidates "
             "and every peer of an accepted reply, except the local node - that is strictly closer than the furthest "
             "reported one is in pending or queried; needs distances injective on peers, "
             "success_closer_contacted_needs_injectivity is the counterexample without), value_done_means / "
